@@ -41,6 +41,8 @@ type Task struct {
 
 type stepCap struct{}
 
+func (stepCap) IsStepCap() {}
+
 // Sim is one simulated world: a tape, tasks, a global event counter.
 type Sim struct {
 	T        *Tape
